@@ -86,6 +86,10 @@ def gen_modular(rng, tier, nrand_quick, nrand_thorough, gen_kwargs=None, base=Tr
             pns = p * UNITS[pu]
             alts = [(pns // UNITS[u], u) for u in UNITS if pns % UNITS[u] == 0]
             c['units'] = {'period': list(rng.choice(alts)) + [0.1], 'unit': rng.choice(list(UNITS)), 'pns': pns, 'seed': rng.randrange(1 << 20)}
+            if rng.random() < 0.4:
+                # the upper bound of every interval is a declared constant without unit next to a lower bound with an explicit unit
+                # (in the inlined form: a bare literal, which takes the unit of the lower bound)
+                c['units']['cbounds'] = True
         cases.append(c)
     return cases
 
@@ -93,13 +97,28 @@ def gen_modular(rng, tier, nrand_quick, nrand_thorough, gen_kwargs=None, base=Tr
 UNITS = {'s': 10**9, 'ms': 10**6, 'us': 10**3, 'ns': 1}
 
 
-def bound_renderer(c):
-    """None (plain sample counts) or a renderer that spells every bound with explicit units"""
+def bound_renderer(c, consts=None):
+    """None (plain sample counts) or a renderer that spells every bound with explicit units; with consts (a list to extend) the
+    upper bounds of a 'cbounds' case are declared constants"""
     u = c.get('units')
     if not u:
         return None
     import random
-    from harness.c08 import spell_bound
+    from harness.c08 import spell_bound, dec
+    if u.get('cbounds'):
+        def cbound(b, e):
+            r = random.Random(u['seed'] * 1000003 + b * 131 + e)
+            un = r.choice([x for x in UNITS if (b * u['pns']) % 1 == 0])
+            sep = r.choice([',', ':'])
+            lo = dec(b * u['pns'], un) + un
+            hi = dec(e * u['pns'], un)
+            if consts is None:
+                return '[%s%s%s]' % (lo, sep, hi)
+            nm = 'tb%d_%d' % (b, e)
+            if nm not in [x[0] for x in consts]:
+                consts.append([nm, 'float', hi])
+            return '[%s%s%s]' % (lo, sep, nm)
+        return cbound
 
     def bound(b, e):
         r = random.Random(u['seed'] * 1000003 + b * 131 + e)
@@ -114,12 +133,13 @@ def unit_kw(c):
 
 def modular_spec(c):
     """(kwargs for the implementation case) of the modular program"""
-    br = bound_renderer(c)
+    consts = [list(x) for x in c.get('consts', [])]
+    br = bound_renderer(c, consts)
     subtexts = ['%s = %s;' % (nm, fml.to_text(shrinkfix(b), br)) for (nm, b, s) in c['subs']]
     main = 'out = ' + fml.to_text(shrinkfix(c['main']), br)
     if c.get('style') == 'one_text':
-        return dict({'spec': '\n'.join(subtexts) + '\n' + main + ';', 'consts': c.get('consts', [])}, **unit_kw(c))
-    return dict({'subspecs': subtexts, 'spec': main, 'consts': c.get('consts', [])}, **unit_kw(c))
+        return dict({'spec': '\n'.join(subtexts) + '\n' + main + ';', 'consts': consts}, **unit_kw(c))
+    return dict({'subspecs': subtexts, 'spec': main, 'consts': consts}, **unit_kw(c))
 
 
 def inlined_spec(c, f=None):
